@@ -286,6 +286,50 @@ static void summary_statistics(unsigned long long& unit)
 				}
 			} while(std::next_permutation(p.begin(), p.end()));
 		}
+	// unequal weights: translation, scaling, permutation and weight-scaling laws, and Cochran's ratio-variance formula
+	for(int n = 2; n <= 7; n++)
+		for(int pat = 0; pat < 6; pat++)
+		{
+			if(!mc::mine(unit++)) continue;
+			std::vector<double> xs, ws;
+			for(int i = 0; i < n; i++) { xs.push_back(al[(i * (pat + 3) + 1) % 7] + 0.5 * i); ws.push_back(0.25 * (1 + (i * (pat + 2) + pat) % 5)); }
+			auto wa = [&](const std::vector<double>& x, const std::vector<double>& w) { std::vector<DataPoint> d; for(size_t i = 0; i < x.size(); i++) d.push_back(DataPoint(x[i], w[i])); return Weighted_Average(d); };
+			std::vector<double> r = wa(xs, ws);
+			std::string key = "weighted,x=" + mc::decv(xs) + ",w=" + mc::decv(ws);
+			g_cases++;
+			ld sw = 0, swx = 0;
+			for(int i = 0; i < n; i++) { sw += ws[i]; swx += (ld)ws[i] * xs[i]; }
+			ld xb = swx / sw, wb = sw / n, s1 = 0, s2 = 0, s3 = 0;
+			for(int i = 0; i < n; i++) { ld a = (ld)ws[i] * xs[i] - wb * xb, b = ws[i] - wb; s1 += a * a; s2 += b * a; s3 += b * b; }
+			ld se = sqrtl((ld)n / (n - 1) / (sw * sw) * (s1 - 2 * xb * s2 + xb * xb * s3));
+			double scale = 64 * n * mc::U_ * (std::fabs((double)xb) + 16);
+			if(r.size() != 2 || !(std::fabs(r[0] - (double)xb) <= scale)) fail("summary", key, "weighted_mean_wrong", "weighted mean " + (r.size() ? mc::dec(r[0]) : std::string("?")) + " expected " + mc::dec((double)xb));
+			else if(!(std::fabs(r[1] - (double)se) <= 1e-12 * ((double)se + 1))) fail("summary", key, "weighted_standard_error_wrong", "standard error " + mc::dec(r[1]) + ", Cochran's ratio-variance formula gives " + mc::dec((double)se));
+			if(r.size() == 2)
+			{
+				// translation by a dyadic constant: mean shifts, standard error unchanged
+				std::vector<double> xt = xs;
+				for(double& x : xt) x += 16.0;
+				std::vector<double> t = wa(xt, ws);
+				if(!(std::fabs(t[0] - (r[0] + 16)) <= scale) || !(std::fabs(t[1] - r[1]) <= 1e-11 * (r[1] + 1))) fail("summary", key, "weighted_translation_law_violated", "after x -> x+16: " + mc::dec(t[0]) + " +- " + mc::dec(t[1]) + ", before: " + mc::dec(r[0]) + " +- " + mc::dec(r[1]));
+				// scaling of the data by powers of two (exact), scaling of all weights (no effect)
+				for(double sc : {4.0, -0.5})
+				{
+					std::vector<double> xsx = xs;
+					for(double& x : xsx) x *= sc;
+					std::vector<double> u = wa(xsx, ws);
+					if(!(std::fabs(u[0] - sc * r[0]) <= scale * std::fabs(sc)) || !(std::fabs(u[1] - std::fabs(sc) * r[1]) <= 1e-12 * (std::fabs(sc) * r[1] + 1))) fail("summary", key, "weighted_scaling_law_violated", "scale " + mc::dec(sc));
+					std::vector<double> wsx = ws;
+					for(double& w : wsx) w *= std::fabs(sc);
+					std::vector<double> v = wa(xs, wsx);
+					if(!(std::fabs(v[0] - r[0]) <= scale) || !(std::fabs(v[1] - r[1]) <= 1e-12 * (r[1] + 1))) fail("summary", key, "weight_scaling_changes_result", "all weights multiplied by " + mc::dec(std::fabs(sc)));
+				}
+				// permutation (reverse and rotate)
+				std::vector<double> xr(xs.rbegin(), xs.rend()), wr(ws.rbegin(), ws.rend());
+				std::vector<double> q = wa(xr, wr);
+				if(!(std::fabs(q[0] - r[0]) <= scale) || !(std::fabs(q[1] - r[1]) <= 1e-12 * (r[1] + 1))) fail("summary", key, "weighted_not_permutation_invariant", "reversed order gives " + mc::dec(q[0]) + " +- " + mc::dec(q[1]));
+			}
+		}
 	// longer data sets: rotations and reversal, median against sorting
 	for(int n : {7, 20, 63, 200})
 	{
